@@ -248,17 +248,14 @@ class Impl:
                     M.objective = {self.rx[k]: float(F(c)) for k, c in a[0]}
                 elif n == "SetObjCoef":
                     r = self.rx[a[0]]
-                    others = [x for x in M.reactions if x is not r] if r.model is M else []
-                    if len(a) > 2 and a[2] == "additive" and others:
-                        # the same edit through the documented additive form, right after another coefficient was edited
-                        # (no read in between): weight of `j` goes up by one, then ONE additive expression takes that
-                        # back and moves the weight of `r` to its new value
+                    delta = (float(F(a[1])) - r.objective_coefficient - 1.0) if r.model is M else 0.0
+                    if len(a) > 2 and a[2] == "additive" and delta != 0.0:
+                        # the same edit through the documented additive form, right after the weight was edited through the
+                        # setter (no read in between): the weight goes up by one, then an additive expression moves it to
+                        # its new value
                         from cobra.util.solver import set_objective
-                        j = others[0]
-                        old_r, old_j = r.objective_coefficient, j.objective_coefficient
-                        j.objective_coefficient = old_j + 1.0
-                        set_objective(M, (float(F(a[1])) - old_r) * r.flux_expression - 1.0 * j.flux_expression,
-                                      additive=True)
+                        r.objective_coefficient = r.objective_coefficient + 1.0
+                        set_objective(M, delta * r.flux_expression, additive=True)
                     else:
                         r.objective_coefficient = float(F(a[1]))
                 elif n == "SetDir":
@@ -556,7 +553,7 @@ def gen_history(rng, length, solver="glpk", ctx_p=0.12, max_depth=3, fail_p=0.15
                 c = list(im.rx)
             if c:
                 o = ["SetObjCoef", rng.choice(c), rng.choice(["1", "0", "-1", "2", "1/2", "1/33554432", "-1/33554432"])]
-                if rng.random() < 0.25:
+                if rng.random() < 0.5:
                     o.append("additive")
         elif n == "SetDir":
             o = ["SetDir", rng.choice(["max", "min"])]
